@@ -75,6 +75,9 @@ func Replay(dir string, lowMem bool, in io.Reader, out io.Writer) {
 		if err != nil {
 			return fmt.Errorf("case %d: %v", id, err)
 		}
+		// marker for the check: if a worker goroutine of the engine crashes the whole process, the last
+		// marker names the case that was running
+		fmt.Fprintf(os.Stderr, "QCASE %d\n", id)
 		got, rerr := Run(d, c.Q, id, lowMem)
 		rows += len(got.Rows)
 		kind, msg := "", ""
